@@ -1,17 +1,16 @@
 import TypVerif.Lemmas.PubSubLiveBlocked
 /-
-The harness naming discipline behind `C10.FreshSubNames`: channel names (of pending `Sub` calls and of existing
-channels) are pairwise distinct.  `NamesOk` is preserved by every step of the system except an environment
-invocation `sub c` / `mkchan c` whose name `c` is carried by a pending `Sub` (any configuration, clones or not).
+The naming discipline behind `C10.FreshSubNames`: channel names (of pending `Sub` calls and of existing channels) are
+pairwise distinct.  `NamesOk` is preserved by EVERY step of the system (any configuration, clones or not): the only
+step that could break it, an environment invocation `sub c` / `mkchan c` whose name `c` is carried by a pending `Sub`
+or by an existing channel, is refused by the model (`envStep`, guard `nameTaken`).  Hence `NamesOk` holds in every
+reachable state (`namesOk_reachable`).
 -/
 namespace TypVerif.Lemmas.PubSubLive
 open TypVerif TypVerif.Model.PubSub TypVerif.Lemmas.PubSubSafe
 
-/-- the task is a pending `Sub` that will create channel `c` -/
-def subName (c : Chan) : Task → Bool
-  | .subStart _ c' _ => c' == c
-  | .subWait _ c' _ => c' == c
-  | _ => false
+/- `subName c t` (the task is a pending `Sub` that will create channel `c`) now lives in `Model/PubSub.lean`: the
+environment step reads it. -/
 
 def idCount (cs : List ChanSt) (c : Chan) : Nat := cs.countP (fun ch => ch.id == c)
 
@@ -76,6 +75,17 @@ theorem sendTo_sent_idCount {s s' : State} {it : Item} (c : Chan) (h : sendTo s 
         · injection h with h; subst h
           exact idCount_updChan _ _ _ _ (fun _ => rfl)
         · cases h
+
+theorem nameTaken_false_hasChan {s : State} {c : Chan} (h : nameTaken s c = false) : hasChan s.chans c = false := by
+  simp only [nameTaken, Bool.or_eq_false_iff] at h
+  exact h.1
+
+/-- the model's own guard on `sub c` / `mkchan c`: no pending `Sub` carries the name -/
+theorem nameTaken_false_countP {s : State} {c : Chan} (h : nameTaken s c = false) :
+    s.tasks.countP (subName c) = 0 := by
+  simp only [nameTaken, Bool.or_eq_false_iff, List.any_eq_false] at h
+  rw [List.countP_eq_zero]
+  exact h.2
 
 /-- `NamesOk` gives the hypothesis of the deadlock theorem -/
 theorem fresh_of_namesOk {s : State} (h : NamesOk s) :
@@ -354,11 +364,10 @@ theorem nameCount_spawn1 (s : State) (t : Task) (c : Chan) :
   simp only [State.spawn, List.countP_append, List.countP_cons, List.countP_nil]
   omega
 
-/-- an invocation keeps the names distinct unless it is a `sub c` / `mkchan c` whose name is carried by a pending
-`Sub` (a name that already exists as a channel is refused by the model itself) -/
-theorem namesOk_envStep {cfg : Cfg} {s s' : State} {e : Event} (hok : NamesOk s) (h : envStep cfg s e = some s')
-    (hsub : ∀ c cap, e = .sub c cap → s.tasks.countP (subName c) = 0)
-    (hmk : ∀ c, e = .mkchan c → s.tasks.countP (subName c) = 0) : NamesOk s' := by
+/-- an invocation keeps the names distinct: a `sub c` / `mkchan c` whose name is carried by a pending `Sub` or by an
+existing channel is refused by the model itself -/
+theorem namesOk_envStep {cfg : Cfg} {s s' : State} {e : Event} (hok : NamesOk s) (h : envStep cfg s e = some s') :
+    NamesOk s' := by
   intro c'
   have hc' := hok c'
   cases e with
@@ -371,8 +380,8 @@ theorem namesOk_envStep {cfg : Cfg} {s s' : State} {e : Event} (hok : NamesOk s)
       rw [nameCount_spawn1]
       by_cases hcc : c = c'
       · subst hcc
-        have h1 := hsub c cap rfl
-        have h2 := idCount_zero_of_not_hasChan (by simpa using hh : hasChan s.chans c = false)
+        have h1 := nameTaken_false_countP (s := s) (c := c) (by simpa using hh)
+        have h2 := idCount_zero_of_not_hasChan (nameTaken_false_hasChan (s := s) (c := c) (by simpa using hh))
         simp [nameCount, subName, h1, h2]
       · have : (c == c') = false := by simp [hcc]
         simp [subName, this]; exact hc'
@@ -386,8 +395,8 @@ theorem namesOk_envStep {cfg : Cfg} {s s' : State} {e : Event} (hok : NamesOk s)
       simp only [idCount_append]
       by_cases hcc : c = c'
       · subst hcc
-        have h1 := hmk c rfl
-        have h2 := idCount_zero_of_not_hasChan (by simpa using hh : hasChan s.chans c = false)
+        have h1 := nameTaken_false_countP (s := s) (c := c) (by simpa using hh)
+        have h2 := idCount_zero_of_not_hasChan (nameTaken_false_hasChan (s := s) (c := c) (by simpa using hh))
         simp [h1, h2]
       · have : (c == c') = false := by simp [hcc]
         simp [this]; exact hc'
@@ -436,10 +445,9 @@ theorem namesOk_envStep {cfg : Cfg} {s s' : State} {e : Event} (hok : NamesOk s)
     · cases h
   | _ => simp [envStep] at h
 
-/-- every step of the system keeps the names distinct, except a colliding `sub c` / `mkchan c` invocation -/
-theorem namesOk_succ {cfg : Cfg} {s s' : State} {l : Option Event} (hok : NamesOk s) (h : (l, s') ∈ succ cfg s)
-    (hsub : ∀ c cap, l = some (.sub c cap) → s.tasks.countP (subName c) = 0)
-    (hmk : ∀ c, l = some (.mkchan c) → s.tasks.countP (subName c) = 0) : NamesOk s' := by
+/-- every step of the system keeps the names distinct -/
+theorem namesOk_succ {cfg : Cfg} {s s' : State} {l : Option Event} (hok : NamesOk s) (h : (l, s') ∈ succ cfg s) :
+    NamesOk s' := by
   unfold succ at h
   split at h
   · simp at h
@@ -456,8 +464,7 @@ theorem namesOk_succ {cfg : Cfg} {s s' : State} {l : Option Event} (hok : NamesO
         | some s1 =>
           simp [hes] at he
           obtain ⟨rfl, rfl⟩ := he
-          exact namesOk_envStep hok hes (fun c cap hc => hsub c cap (by rw [hc]))
-            (fun c hc => hmk c (by rw [hc]))
+          exact namesOk_envStep hok hes
       · simp only [List.mem_flatMap, List.mem_range] at h
         obtain ⟨i, _, hi⟩ := h
         unfold taskSteps at hi
@@ -474,5 +481,9 @@ theorem namesOk_succ {cfg : Cfg} {s s' : State} {l : Option Event} (hok : NamesO
         obtain ⟨r, _, hr⟩ := h
         injection hr with _ hr; subst hr
         exact hok
+
+/-- names are pairwise distinct in every reachable state, for every configuration (with or without clones) -/
+theorem namesOk_reachable (cfg : Cfg) : ∀ s, Conc.Reachable (sys cfg) s → NamesOk s :=
+  Conc.invariant (sys cfg) NamesOk namesOk_init (fun _ _ _ hok h => namesOk_succ hok h)
 
 end TypVerif.Lemmas.PubSubLive
